@@ -83,12 +83,19 @@ def check_decode_case(case, acc):
         data, _ = iso_ref.encode(msg, cfg, enc, bool(case.get('hex')))
     except iso_ref.RefError as ex:
         raise core.Broken('reference cannot encode %r: %s' % (case, ex))
+    # how the configuration reaches the library rotates with the case: a plain dict, or the same content as a
+    # read-only proxy / a layered ChainMap / a UserDict (a masking configuration must mask however it is held)
+    import collections
+    import types
+    how = (case['bit'] + case['len']) % 4
+    lcfg = cfg if how == 0 else types.MappingProxyType(cfg) if how == 1 else collections.ChainMap({}, cfg) \
+        if how == 2 else collections.UserDict(cfg)
     try:
         if case['via'] == 'loads':
-            out = iso8583.loads(data, encoding=enc, iso_config=cfg, hex_bitmap=bool(case.get('hex')))
+            out = iso8583.loads(data, encoding=enc, iso_config=lcfg, hex_bitmap=bool(case.get('hex')))
         else:
             f = io.BytesIO(vbs_ref.frame([data]))
-            recs = list(mciipm.IpmReader(f, encoding=enc, iso_config=cfg))
+            recs = list(mciipm.IpmReader(f, encoding=enc, iso_config=lcfg))
             if len(recs) != 1:
                 acc.viol('c16.decode.records', case, '%d records' % len(recs), '1 record')
                 return
